@@ -283,10 +283,16 @@ def run_series(rep, rng, n):
         itgt = rng.choice(["int64", "str"])
         labs = rng.sample(range(1, 30), m)
         with_index = rng.random() < 0.7
-        idx_as_str = rng.random() < 0.6
+        idx_kind = rng.choice(["int", "str", "str", "mixed", "mixed"])
+        if idx_kind == "int":
+            labels = list(labs)
+        elif idx_kind == "str":
+            labels = [str(i) for i in labs]
+        else:       # an object index holding labels of several python types
+            labels = [rng.choice([i, str(i), float(i), i + 0.5]) for i in labs]
         case = {"series": {"dtype": src, "vals": vals}, "target": tgt, "index_target": itgt if with_index else None,
-                "labels": labs, "labels_as_str": idx_as_str}
-        s = A.series_of(vals, src, index=pd.Index([str(i) for i in labs] if idx_as_str else labs))
+                "labels": [repr(x) for x in labels], "labels_kind": idx_kind}
+        s = A.series_of(vals, src, index=pd.Index(labels, dtype=object if idx_kind == "mixed" else None))
         schema = pa.SeriesSchema(A.SCHEMA_DTYPE[tgt], coerce=True, nullable=True,
                                  index=pa.Index(A.SCHEMA_DTYPE[itgt], coerce=True) if with_index else None)
         stripped = pa.SeriesSchema(A.SCHEMA_DTYPE[tgt], nullable=True,
@@ -326,16 +332,31 @@ def run_polars(rep, rng, n):
     for _ in range(n):
         c = gen_case(rng, drop_rate=0.0)
         S, D = c["schema"], c["frame"]
-        if any(s["regex"] is not None for s in S["columns"]) or not D["cols"]:
+        if not D["cols"]:
             continue
         S["index"] = None
         S["ordered"] = False
         S["unique"] = []
         for s in S["columns"]:
             s["unique"] = False
+        # defaults (also on regex columns) with nulls / NaNs in the matched columns
+        import re as _re
+        for s in S["columns"]:
+            if s["dtype"] is None or s["dtype"] not in A.POOL:
+                continue
+            hits = [col for col in D["cols"] if col["dtype"] == s["dtype"] and (
+                (_re.fullmatch(A.pat_render(s["regex"]), col["name"]) is not None) if s["regex"] is not None
+                else col["name"] == s["name"])]
+            if s["regex"] is not None and hits and rng.random() < 0.7 or (s["regex"] is None and s.get("default") is not None):
+                s["default"] = s.get("default") if s.get("default") is not None else rng.choice(A.POOL[s["dtype"]])
+                for col in hits:
+                    if col["vals"] and rng.random() < 0.8:
+                        col["vals"][rng.randrange(len(col["vals"]))] = {"nan": True} if s["dtype"] == "float64" else A.NULL
+            elif s["regex"] is not None:
+                s["default"] = None
         try:
             df = PA.frame_of(D)
-            schema = PA.schema_of(S)
+            schema = PA.schema_of(S, with_defaults=True)
             stripped = PA.schema_of(strip(S))
         except Exception:  # noqa: BLE001
             rep.count("polars:unbuildable")
